@@ -1050,9 +1050,7 @@ func (self *Node) deleteChild(path Path) Node {
 			return errNotFound
 		}
 		tt = et
-		if err := p.ModifyI32(p.Read-4, int32(size-1)); err != nil {
-			return errNode(meta.ErrWrite, "", err)
-		}
+		sizePos := p.Read - 4
 		if d := thrift.TypeSize(et); d > 0 {
 			s = p.Read + d*id
 			e = s + d
@@ -1068,6 +1066,10 @@ func (self *Node) deleteChild(path Path) Node {
 			}
 			e = p.Read
 		}
+		// NOTICE: patch the size only after the victim has been located, so that a failure leaves the value unchanged
+		if err := p.ModifyI32(sizePos, int32(size-1)); err != nil {
+			return errNode(meta.ErrWrite, "", err)
+		}
 	case thrift.MAP:
 		kt, et, size, err := p.ReadMapBegin()
 		if err != nil {
@@ -1077,10 +1079,9 @@ func (self *Node) deleteChild(path Path) Node {
 		if id == nil {
 			return errNode(meta.ErrInvalidParam, "", nil)
 		}
-		if err := p.ModifyI32(p.Read-4, int32(size-1)); err != nil {
-			return errNode(meta.ErrWrite, "", err)
-		}
+		sizePos := p.Read - 4
 		tt = et
+		found := false
 		for i := 0; i < size; i++ {
 			s = p.Read
 			if err := p.Skip(kt, UseNativeSkipForGet); err != nil {
@@ -1092,8 +1093,16 @@ func (self *Node) deleteChild(path Path) Node {
 			}
 			e = p.Read
 			if bytes.Equal(key, id) {
+				found = true
 				break
 			}
+		}
+		if !found {
+			return errNotFound
+		}
+		// NOTICE: patch the size only after the victim has been located, so that a failure leaves the value unchanged
+		if err := p.ModifyI32(sizePos, int32(size-1)); err != nil {
+			return errNode(meta.ErrWrite, "", err)
 		}
 	}
 
